@@ -3,7 +3,7 @@ from ..oracles import c18
 
 MODELS = ["Drag"]
 STREAMS = [drag.stream_viscous, drag.stream_wave]
-ORACLES = [c18.oracle_components, c18.oracle_mesh_independence]
+ORACLES = [c18.oracle_components, c18.oracle_mesh_independence, c18.oracle_option_combinations]
 UNPROVED = ["CDv decreasing in Reynolds number for mixed laminar/turbulent surfaces (0 < k_lam < 1): proved only for k_lam = 0 and k_lam = 1 (C18_CDv_decreasing_in_Re_partial); the mixed case is validated by the oracle's Reynolds sweeps"]
 ASSUMPTIONS = [
     "theorems over R with Rpower for x**y; models tied to ViscousDrag / WaveDrag / TotalDrag by differential execution over k_lam in {0, 0.05, 0.5, 0.999, 1}, symmetric and not, options on/off, M placed on both sides of the onset with a 1e-2 margin",
